@@ -168,7 +168,7 @@ pub async fn run_conn_tls(
     // Read concurrently with writing, like any client that pipelines: a
     // client that only reads after it has written everything deadlocks with
     // the server once both pipes are full.
-    let (mut rd, mut wr) = tokio::io::split(tls);
+    let (mut rd, mut wr) = tokio::io::split(SpinGuard::new(tls, world.clone()));
     struct Shared {
         obs: ConnObs,
         parser: RespParser,
@@ -346,4 +346,74 @@ pub async fn run_conn_tls(
         obs.by_req[k] = obs.finals.get(k).cloned();
     }
     obs
+}
+
+
+/// rustls (0.22) refuses to read once it has seen the peer's close_notify,
+/// and reports neither EOF nor an error while undecoded bytes are left in
+/// its buffer (bytes the peer sent behind the alert); tokio-rustls then wakes
+/// itself for ever ("if the rustls state is abnormal, it may cause a cyclic
+/// wakeup").  A real client gives up on such a connection; so does this one:
+/// after two million consecutive fruitless polls at one virtual instant the
+/// read ends with `UnexpectedEof`.
+pub struct SpinGuard<S> {
+    inner: S,
+    spins: u32,
+    at: tokio::time::Instant,
+    world: World,
+}
+
+impl<S> SpinGuard<S> {
+    pub fn new(inner: S, world: World) -> SpinGuard<S> {
+        SpinGuard { inner, spins: 0, at: tokio::time::Instant::now(), world }
+    }
+}
+
+impl<S: tokio::io::AsyncRead + Unpin> tokio::io::AsyncRead for SpinGuard<S> {
+    fn poll_read(
+        mut self: std::pin::Pin<&mut Self>,
+        cx: &mut std::task::Context<'_>,
+        buf: &mut tokio::io::ReadBuf<'_>,
+    ) -> std::task::Poll<std::io::Result<()>> {
+        let this = &mut *self;
+        match std::pin::Pin::new(&mut this.inner).poll_read(cx, buf) {
+            std::task::Poll::Pending => {
+                let now = tokio::time::Instant::now();
+                if now == this.at {
+                    this.spins += 1;
+                } else {
+                    this.at = now;
+                    this.spins = 0;
+                }
+                if this.spins > 2_000_000 {
+                    this.world.probe("tls_client_gave_up_on_spinning_session");
+                    return std::task::Poll::Ready(Err(std::io::Error::new(
+                        std::io::ErrorKind::UnexpectedEof,
+                        "tls session neither readable nor closed",
+                    )));
+                }
+                std::task::Poll::Pending
+            }
+            ready => {
+                this.spins = 0;
+                ready
+            }
+        }
+    }
+}
+
+impl<S: tokio::io::AsyncWrite + Unpin> tokio::io::AsyncWrite for SpinGuard<S> {
+    fn poll_write(
+        mut self: std::pin::Pin<&mut Self>,
+        cx: &mut std::task::Context<'_>,
+        buf: &[u8],
+    ) -> std::task::Poll<std::io::Result<usize>> {
+        std::pin::Pin::new(&mut self.inner).poll_write(cx, buf)
+    }
+    fn poll_flush(mut self: std::pin::Pin<&mut Self>, cx: &mut std::task::Context<'_>) -> std::task::Poll<std::io::Result<()>> {
+        std::pin::Pin::new(&mut self.inner).poll_flush(cx)
+    }
+    fn poll_shutdown(mut self: std::pin::Pin<&mut Self>, cx: &mut std::task::Context<'_>) -> std::task::Poll<std::io::Result<()>> {
+        std::pin::Pin::new(&mut self.inner).poll_shutdown(cx)
+    }
 }
